@@ -28,7 +28,8 @@ PROPS['C10'] = dict(
                  'termination, stack never overflows, expect/unreachable!/index sites unreachable; (A4) SwitchActions::next returns the first firing '
                  'case from case_index on, break ends the iteration, fallthrough continues. Kani: the same codec facts on the unextracted functions '
                  'over full operand domains, and each leaf arm of the real evaluate_boolean against the leaf meaning the Verus proof assumes (R5 split).'),
-    verus=[dict(unit='switch', cex={'evaluate_boolean': ['c10_b_shape_nested_last_then_more', 'c10_b_shape_nested_first', 'c10_b_shape_nested_last', 'c10_b_shape_toplevel_list']})],
+    verus=[dict(unit='switch', cex={'evaluate_boolean': ['c10_b_shape_nested_last_then_more', 'c10_b_shape_nested_first', 'c10_b_shape_nested_last', 'c10_b_shape_toplevel_list'], 'next': ['c10_b_case_iteration']},
+                fallback=['c10_b_shape_nested_last_then_more', 'c10_b_shape_nested_first', 'c10_b_shape_nested_last', 'c10_b_shape_toplevel_list', 'c10_b_case_iteration'])],
     kani=[
         H('keyberon', 'action::switch', 'c10_k_codec_ticks', kind='complete', functions=['keyberon/src/action/switch.rs lossy_compress_ticks', 'keyberon/src/action/switch.rs lossy_decompress_ticks', 'keyberon/src/action/switch.rs OpCode::new_ticks_since_gt', 'keyberon/src/action/switch.rs OpCode::new_ticks_since_lt', 'keyberon/src/action/switch.rs OpCode::opcode_type'], covers='all u16 thresholds x all recencies'),
         H('keyberon', 'action::switch', 'c10_k_codec_keys', kind='complete', functions=['keyberon/src/action/switch.rs OpCode::new_key', 'keyberon/src/action/switch.rs OpCode::new_key_history'], covers='all 768 key codes x all recencies'),
@@ -43,6 +44,7 @@ PROPS['C10'] = dict(
         H('keyberon', 'action::switch', 'c10_b_leaf_input_history', kind='complete', bound='history <= 8 entries = capacity of the real History', functions=['keyberon/src/action/switch.rs evaluate_boolean (HistoricalInput leaf arm)']),
         H('keyberon', 'action::switch', 'c10_b_leaf_layer', kind='bounded', bound='<= 3 layers in the order (only the first is read)', functions=['keyberon/src/action/switch.rs evaluate_boolean (Layer, BaseLayer leaf arms)']),
         H('keyberon', 'action::switch', 'c10_b_leaf_key_neg', kind='bounded', expect='fail', covers='must-fail twin: key leaf claimed always true'),
+        H('keyberon', 'action::switch', 'c10_b_case_iteration', kind='bounded', tier='thorough', timeout=1200, bound='2 cases, symbolic firing and break/fallthrough', functions=['keyberon/src/action/switch.rs Switch::actions', 'keyberon/src/action/switch.rs <SwitchActions as Iterator>::next (real generic version)']),
         H('keyberon', 'action::switch', 'c10_b_shape_nested_first', kind='bounded', tier='thorough', bound='fixed shape (op1 (op2 a b) c), all 9 operator pairs, all 8 assignments', functions=['keyberon/src/action/switch.rs evaluate_boolean (operator stack)']),
         H('keyberon', 'action::switch', 'c10_b_shape_nested_last', kind='bounded', tier='thorough', bound='fixed shape (op1 a (op2 b c)), all 9 operator pairs, all 8 assignments'),
         H('keyberon', 'action::switch', 'c10_b_shape_nested_last_then_more', kind='bounded', tier='thorough', bound='fixed shape (op0 (op1 (op2 a b)) c), all 27 operator triples, all 8 assignments'),
@@ -112,6 +114,7 @@ PROPS['C03'] = dict(
           functions=['parser/src/cfg/sexpr.rs Position::new', 'parser/src/cfg/sexpr.rs Span::new', 'parser/src/cfg/sexpr.rs Span::cover']),
         H('parser', 'cfg::sexpr', 'c03_k_span_cover_neg', kind='complete', expect='fail', covers='must-fail twin: without same-file ordering the assert fires'),
         H('parser', 'cfg', 'c02_k_key_max_fits_row', kind='complete', covers='every known key code is a valid column of a layer row (parse_layers indexes by it)', functions=['parser/src/layers.rs KEYS_IN_ROW']),
+        H('parser', 'cfg::sexpr', 'c03_k_lexer_delimiters_ascii', kind='complete', covers='all 256 byte values', functions=['parser/src/cfg/sexpr.rs is_start']),
     ],
     assumptions=[
         'NOT decided: totality and termination of the lexer, the list builder, every parse_* function, includes, templates, defvar recursion, miette rendering',
